@@ -361,16 +361,21 @@ _P = ('k0: int, o0: int, k1: int, o1: int, k2: int, o2: int, k3: int, o3: int, x
 _PRE = ['0 <= k%d <= 3 and 0 <= o%d <= 4' % (i, i) for i in range(4)] + [
     '0 <= x0 <= 2 and 0 <= x1 <= 2 and 0 <= x2 <= 2', '-1 <= cancel_i <= 3']
 OBLIGATIONS = [
-    dict(id='C20.1', impl='sequence', params=_P, cases=[(3,)], cases_thorough=[(4,)], pre=_PRE,
+    dict(id='C20.1', impl='sequence', params=_P, cases=[(3,)], cases_thorough=[(3,)], pre=_PRE,
          splits=[['k0 == %d' % k, 'o0 == %d' % o, 'k3 == 0', 'o3 == 0', 'not rename_fails', 'cancel_i == -1', 'x1 == 0', 'x2 == 0']
                  for k in range(4) for o in range(5)] +
                 [['k0 == 1', 'o0 == %d' % o, 'k3 == 0', 'o3 == 0', 'rename_fails', 'cancel_i == -1', 'x1 == 0', 'x2 == 0', 'k2 == 3']
                  for o in range(4)] +
                 [['k%d == 1' % i, 'cancel_i == %d' % i, 'o0 == 0', 'k3 == 0', 'o3 == 0', 'not rename_fails', 'x1 == 0', 'x2 == 0', 'k%d == 3' % ((i + 1) % 3)]
                  for i in range(3)],
-         splits_thorough=[['k0 == %d' % k, 'o0 == %d' % o] for k in range(4) for o in range(5)],
+         splits_thorough=[['k0 == %d' % k, 'o0 == %d' % o, 'k3 == 0', 'o3 == 0', 'not rename_fails', 'cancel_i == -1', 'x2 == 0']
+                          for k in range(4) for o in range(5)] +
+                         [['k0 == 1', 'o0 == %d' % o, 'k3 == 0', 'o3 == 0', 'rename_fails', 'cancel_i == -1', 'x2 == 0']
+                          for o in range(5)] +
+                         [['k%d == 1' % i, 'cancel_i == %d' % i, 'k3 == 0', 'o3 == 0', 'not rename_fails', 'x1 == 0', 'x2 == 0']
+                          for i in range(3)],
          timeout=(170, 1500),
-         bounds='3 (thorough 4) submissions, 4 kinds x 4 outcomes each, symbolic completion order, 2 permits (so a '
+         bounds='3 submissions, 4 kinds x 5 outcomes each, symbolic completion order (thorough: two free order choices), 2 permits (so a '
                 'submitter blocks), optional user cancel of one transfer, optional failing rename',
          encodes=['CRTTransferManager._submit_transfer', '_release_semaphore', '_shutdown', '_cancel_transfers',
                   '_finish_transfers', '_wait_transfers_done', 'CRTTransferCoordinator', 'S3ClientArgsCreator.'
